@@ -46,6 +46,7 @@ def run(ctx):
     codecrules.schedule_values_confined(ctx, prog, 'C09', ('expand',))
     codecrules.resume(ctx, prog, 'C09')
     codecrules.emit_symbol_law(ctx, prog, 'C09')
+    codecrules.emit_state_signatures(ctx, prog, 'C09')
     c05.parse_fsm_rule(ctx, prog, pfx='C09', crc_bits=False)
     codecrules.uninit(ctx, prog, 'C09', units=('decode', 'parse', 'expand'))
     outmode_invisible(ctx, prog)
